@@ -257,12 +257,14 @@ def make_replay(cfg, keys):
             try:
                 out = body(ctx, cfg)
             except SC.ReplayDiverged as ex:
-                return False, 'diverged: %s' % ex
+                return None, 'float replay diverged (%s): decided by the concolic re-run' % ex
             except Exception as ex:  # noqa: BLE001
                 import traceback
                 tb = traceback.extract_tb(ex.__traceback__)
                 where = ['%s:%d %s' % (f.filename.split('/')[-1], f.lineno, f.name) for f in tb[-3:]]
                 return True, dict(exception='%s: %s' % (type(ex).__name__, ex), where=where)
+            if out.get('raised') == 'ReplayDiverged':
+                return None, 'float replay reached a value the symbolic run never created (%s): decided by the concolic re-run' % out.get('raised_msg')
             bad = [k for k in keys if k in out and not bool(out[k])]
             info = dict(failed=bad, outcome={k: (v if isinstance(v, (bool, int, str, float)) else str(v)) for k, v in out.items()},
                         msgs=ctx.msgs[-4:], evaluations=ctx.evals[-12:])
@@ -454,12 +456,14 @@ def make_replay_rw(cfg, keys):
             try:
                 out = body_rw(ctx, cfg)
             except SC.ReplayDiverged as ex:
-                return False, 'diverged: %s' % ex
+                return None, 'float replay diverged (%s): decided by the concolic re-run' % ex
             except Exception as ex:  # noqa: BLE001
                 import traceback
                 tb = traceback.extract_tb(ex.__traceback__)
                 where = ['%s:%d %s' % (f.filename.split('/')[-1], f.lineno, f.name) for f in tb[-3:]]
                 return True, dict(exception='%s: %s' % (type(ex).__name__, ex), where=where)
+            if out.get('raised') == 'ReplayDiverged':
+                return None, 'float replay reached a value the symbolic run never created (%s): decided by the concolic re-run' % out.get('raised_msg')
             bad = [k for k in keys if k in out and not bool(out[k])]
             return bool(bad), dict(failed=bad, outcome={k: (v if isinstance(v, (bool, int, str, float)) else str(v)) for k, v in out.items()},
                                    msgs=[m[:60] for m in ctx.msgs[-4:]], evaluations=ctx.evals[-12:])
